@@ -39,13 +39,15 @@ INTENSIVE = ["feed_temperature", "feed_compositions", "permeate_composition", "p
 EXTENSIVE = ["feed_mass", "feed_evaporation_heat", "permeate_condensation_heat"]
 
 
-def conditioning(sc, base):
+def conditioning(sc, base, upto=None):
     """how strongly a rounding-level perturbation of the state is amplified in the reported series: 1/min(w,1-w) (the
-    minor fraction is recovered as 1 - major), 1/min(y,1-y), and P*p_feed/|J| (driving force as a difference)"""
+    minor fraction is recovered as 1 - major), 1/min(y,1-y), and P*p_feed/|J| (driving force as a difference).
+    With `upto`: -> (conditioning of the steps before the first one whose own amplification exceeds `upto`, that step's index)"""
     from pyvaporation.mixtures import get_partial_pressures
 
     c = 1.0
     for k in range(len(base.time)):
+        before = c
         w, y = base.feed_compositions[k].p, base.permeate_composition[k].p
         for v in (w, y):
             if 0 < v < 1:
@@ -58,11 +60,18 @@ def conditioning(sc, base):
                     c = max(c, base.permeances[k][i].value * abs(float(pf[i])) / j)
         except Exception:
             pass
+        if upto is not None and c > upto:
+            return before * max(1, k), k
+    if upto is not None:
+        return c * max(1, len(base.time)), len(base.time)
     return c * max(1, len(base.time))
 
 
-def compare(rep, oracle, case, base, twin, factor, exact, include_time=True, rel=1e-11):
+def compare(rep, oracle, case, base, twin, factor, exact, include_time=True, rel=1e-11, upto=None):
     a, b = proc.model_fingerprint(base), proc.model_fingerprint(twin)
+    if upto is not None:
+        a = {k: (v[:upto] if isinstance(v, list) else v) for k, v in a.items()}
+        b = {k: (v[:upto] if isinstance(v, list) else v) for k, v in b.items()}
     for key in INTENSIVE + (["time"] if include_time else []):
         if exact:
             if a[key] != b[key]:
@@ -137,9 +146,15 @@ def run_shard(spec, rep):
             elif st == "ok" and proc.non_contractive(sc, base):
                 rep.count("arbitrary_factor_twin_skipped(non-contractive fixed-point map at some step)")
             elif st == "ok":
-                twins += 1
-                compare(rep, "area and feed x k: intensive series unchanged, masses and heats x k (1e-11)", case, base, tw, k, False,
-                        rel=min(1e-6, 1e-12 * conditioning(sc, base) + 1e-11))
+                # judged up to the first step whose own amplification of a rounding-level perturbation exceeds 1e4 (a component
+                # all but exhausted: its fraction 1e-11 is recovered as 1 - w): from there on the two runs legitimately drift apart
+                cond, good = conditioning(sc, base, upto=1e4)
+                if good < len(base.time):
+                    rep.count("arbitrary_factor_twin_judged_up_to_an_ill_conditioned_step")
+                if good >= 1:
+                    twins += 1
+                    compare(rep, "area and feed x k: intensive series unchanged, masses and heats x k (1e-11)", case, base, tw, k, False,
+                            rel=min(1e-6, 1e-12 * cond + 1e-11), upto=good)
             elif st == "raised":
                 rep.count("arbitrary_factor_twin_raised")
             # step-0 fluxes never depend on area, amount or step length
